@@ -219,7 +219,7 @@ fn run(ctx: &mut Ctx) {
     let t = ctx.tier;
     // part 1: enumerations under the neutral configuration
     let plan = Plan {
-        bytes_n: t.pick(6, 7),
+        bytes_n: t.pick(7, 8),
         tokens_k: t.pick(4, 5),
         pool: true,
         ..Plan::default()
@@ -228,7 +228,7 @@ fn run(ctx: &mut Ctx) {
     for_each_input(ctx, &plan, &mut |ctx, input, src, _r| check_case(ctx, &mut loc, input, &neutral, src));
     // part 2: smaller enumeration under all 128 configurations
     let plan = Plan {
-        bytes_n: t.pick(4, 5),
+        bytes_n: t.pick(5, 6),
         tokens_k: t.pick(2, 3),
         pool: true,
         ..Plan::default()
@@ -247,13 +247,13 @@ fn run(ctx: &mut Ctx) {
     ctx.exhaustive("the second, smaller enumeration is crossed with all 128 reader configurations");
     // part 3: random exploration
     let plan = Plan {
-        grammar_docs: t.pick(20_000, 400_000),
+        grammar_docs: t.pick(100_000, 1_000_000),
         mutants_per_doc: 3,
         truncate_all: true,
         bom_share: 8,
         corpus: true,
         corpus_truncs: t.pick(16, 64),
-        random_atoms: t.pick(100_000, 2_000_000),
+        random_atoms: t.pick(500_000, 5_000_000),
         ..Plan::default()
     };
     for_each_input(ctx, &plan, &mut |ctx, input, src, r| {
